@@ -118,3 +118,62 @@ func VerifC06_Catalog(st any) {
 		verifrt.Reached("unchanged")
 	}
 }
+
+
+// Node-level reads of a node (local or imported from a peer) around its deregistration: the index never
+// decreases, is not zero once the node has existed, and a changed result carries a greater index.
+func VerifC06_NodeReads() {
+	s := NewStateStore(nil)
+	must := func(err error) {
+		if err != nil {
+			panic(err)
+		}
+	}
+	peer := ""
+	if verifrt.Bool("imported") {
+		peer = "p1"
+	}
+	must(s.EnsureRegistration(1, &structs.RegisterRequest{Node: "n0", Address: "10.0.0.9", PeerName: peer}))
+	must(s.EnsureRegistration(2, &structs.RegisterRequest{Node: "n1", Address: "10.0.0.1", PeerName: peer,
+		Service: &structs.NodeService{ID: "web1", Service: "web", Port: 80, PeerName: peer}}))
+	read := func(ws memdb.WatchSet, q int) (uint64, any) {
+		switch q {
+		case 0:
+			i, r, _ := s.NodeServices(ws, "n1", nil, peer)
+			return i, r
+		case 1:
+			i, r, _ := s.NodeServiceList(ws, "n1", nil, peer)
+			return i, r
+		case 2:
+			i, r, _ := s.Nodes(ws, nil, peer)
+			return i, r
+		}
+		i, r, _ := s.GetNode("n1", nil, peer)
+		return i, r
+	}
+	q := verifrt.Choice("read", 4)
+	qn := []string{"node-services", "node-service-list", "nodes", "get-node"}[q]
+	ws := memdb.NewWatchSet()
+	i0, r0 := read(ws, q)
+	idx := verifrt.U64("idx")
+	verifrt.Assume(idx > 2 && idx < 1<<62)
+	w := verifrt.Choice("write", 3)
+	switch w {
+	case 0:
+		must(s.DeleteNode(idx, "n1", nil, peer))
+	case 1:
+		must(s.DeleteService(idx, "n1", "web1", nil, peer))
+	case 2:
+		must(s.EnsureRegistration(idx, &structs.RegisterRequest{Node: "n1", Address: "10.0.0.2", PeerName: peer}))
+	}
+	wn := []string{"delete-node", "delete-service", "node-address"}[w]
+	i1, r1 := read(nil, q)
+	verifrt.Assert("C06."+qn+"."+wn+".index-never-decreases", i1 >= i0)
+	verifrt.Assert("C06."+qn+"."+wn+".index-not-zero-after-the-node-existed", i1 != 0)
+	if !reflect.DeepEqual(r0, r1) {
+		verifrt.Assert("C06."+qn+"."+wn+".changed-result-has-greater-index", i1 > i0)
+		verifrt.Reached("changed")
+	} else {
+		verifrt.Reached("unchanged")
+	}
+}
